@@ -21,6 +21,7 @@ pub fn run(ctx: &mut Ctx) {
     o.strip_max = if ctx.is_miri { 0 } else if ctx.quick() { 8192 } else { 70_000 };
     let total = ctx.n;
     let seed = ctx.seed;
+    let ctx_is_miri = ctx.is_miri;
     ctx.drive(
         total,
         |_, idx| {
@@ -28,7 +29,28 @@ pub fn run(ctx: &mut Ctx) {
             let mut c = random_case(&mut rng, &o);
             c.pt = ALL_PT[(idx % 13) as usize];
             c.alg = Alg::Nearest;
+            if !ctx_is_miri && (idx / 13) % 64 == 3 {
+                // both extents long along one axis (source x destination beyond 2^31, beyond 2^32): index arithmetic in wide strips
+                let a = *rng.pick(&[40_000u32, 46_341, 65_535, 65_536, 70_001, 92_682, 100_000]) + rng.below(3) as u32;
+                let b = *rng.pick(&[40_000u32, 46_341, 50_003, 65_535, 65_537, 90_000, 100_000]) + rng.below(3) as u32;
+                let (s2, d2) = (rng.range(1, 2) as u32, rng.range(1, 2) as u32);
+                if rng.chance(1, 2) {
+                    (c.sw, c.dw, c.sh, c.dh) = (a, b, s2, d2);
+                } else {
+                    (c.sh, c.dh, c.sw, c.dw) = (a, b, s2, d2);
+                }
+                c.crop = match rng.below(3) {
+                    0 => Crop::None,
+                    1 => {
+                        // whole-numbered crop box
+                        let (l, t) = (rng.below(c.sw as u64 / 4) as f64, rng.below(c.sh as u64 / 4) as f64);
+                        Crop::Box([l, t, (c.sw as f64 - l - rng.below(3) as f64).max(1.0), (c.sh as f64 - t).max(1.0)])
+                    }
+                    _ => Crop::Box([0.25, 0.0, c.sw as f64 - 0.5, c.sh as f64]),
+                };
+            }
             match (idx / 13) % 8 {
+                _ if !ctx_is_miri && (idx / 13) % 64 == 3 => {}
                 0 => {
                     // sub-pixel crop flush against the right/bottom edge (the D2 geometry)
                     let (w, h) = (c.sw as f64, c.sh as f64);
